@@ -594,6 +594,62 @@ def SDef.wf (s : SDef) : Bool :=
   decide s.names.Nodup && s.names.length == totalSlots s.fmts &&
     defaultsOrdered (s.names.map (fun n => (n, if s.defaults.contains n then some () else none)))
 
+/-! ### translated ties: what the REAL generators emitted / the REAL conversion produced, as data (Gen.lean)
+
+  `tools/gen_c20.py` runs `vp_compile` / `convert_to_payload` of the working tree on a fixed battery of definitions
+  (and on every shipped class), parses the emitted source text / reads the resulting class data, and writes it down as
+  the structures below.  Props.lean proves by `decide` that the hand-written generators of this file produce exactly
+  that, so those theorems are re-proved against the source on every run. -/
+
+/-- the shape of the three generated functions, values of defaults dropped -/
+structure GenShape where
+  initParams : List (String × Bool)                      -- parameter, has a default
+  setters : List (String × String)                       -- self.<attr> = <param>
+  unpackParams : List String
+  unpackArgs : List (String × Bool)                      -- argument of `cls(...)`, wrapped in the guarded hook call
+  packEntries : List (String × List (String × Bool))     -- tag, (self.<attr>, wrapped in the hook call)
+deriving Repr, DecidableEq
+
+def Compiled.shape {V : Type} (c : Compiled V) : GenShape :=
+  { initParams := c.init.params.map (fun p => (p.1, p.2.isSome)),
+    setters := c.init.setters,
+    unpackParams := c.unpack.params,
+    unpackArgs := c.unpack.callArgs.map (fun a => match a with
+      | .plain n => (n, false)
+      | .guarded n => (n, true)),
+    packEntries := c.pack.entries.map (fun e => (e.1, e.2.map (fun a => match a with
+      | .attr n => (n, false)
+      | .hooked n => (n, true)))) }
+
+/-- what the model's `vp_compile` generates for a definition given as data -/
+def SDef.modelShape (s : SDef) : Option GenShape :=
+  match vpCompile (V := Unit) some (s.toPDef (fun _ => ()) (fun _ => id) (fun _ => id)) with
+  | .ok c => some c.shape
+  | .error _ => none
+
+/-- the container rules that `convert_to_payload` derives, as data (see `derivedUnpack`) -/
+def derivedKinds {β : Type} (user : List String) : List (String × Ty × β) → List (String × CKind)
+  | [] => []
+  | (n, .coll k _, _) :: rest =>
+    if k = .list || user.contains n then derivedKinds user rest
+    else (n, k) :: derivedKinds user rest
+  | _ :: rest => derivedKinds user rest
+
+/-- one dataclass of the battery: fields (name, annotation, has a default), names of the class's own unpack rules, and
+    what the REAL conversion produced: `none` if it raised, else (format_list, names, derived container rules) -/
+structure DCase where
+  name : String
+  fields : List (String × Ty × Bool)
+  userUnpack : List String
+  result : Option (List Fmt × List String × List (String × CKind))
+deriving Repr, DecidableEq
+
+/-- what the model's conversion produces for that dataclass -/
+def DCase.model (c : DCase) : Option (List Fmt × List String × List (String × CKind)) :=
+  match mapTypes (c.fields.map (·.2.1)) with
+  | .error _ => none
+  | .ok fmts => some (fmts, c.fields.map (·.1), derivedKinds c.userUnpack c.fields)
+
 /-! ### bytes: `Serializer.pack_serializable` is a fold over the pack list -/
 
 abbrev Bytes := List UInt8
